@@ -4,6 +4,9 @@ CONSTANTS
   ChainTy = "str"
   CasesFile = "cases.ndjson"
   SwNotConsumed = TRUE
+  SwNestedSourceTag = TRUE
+  SwEmptyRecordSourceTag = TRUE
+  SwFlatNested = TRUE
   SwCodeFlipBeforeOpts = TRUE
   SwOptsOnCopy = TRUE
   SwSettersOverwrite = TRUE
